@@ -310,7 +310,7 @@ def _do(step, cur, made, others=None):
             res = _R('accepted')
         elif act == 'mctor':
             if step['kind'] == 'noenum':
-                res = _proj(L['Member'](5, 'a', 1))
+                res = _proj(L['Member']({'a': 1}, 'a', 1))          # a plain dict is not an Enum
             else:
                 r = L['Member'](cur, 'zz', 9)
                 res = _R('mem', v=r.value, s=r.name) if r.enum is cur else _R('foreign')
@@ -399,7 +399,12 @@ def _replay_chunk(lines):
         nontrivial += any(s['exp']['r'] == 'enum' and s['exp']['m'] for s in b)
         if act in ('extend', 'cmp', 'mut') and len(b) > 1:
             samples.setdefault(act, b)
-        bad = _replay(b)
+        try:
+            bad = _replay(b)
+        except MachineryError:
+            raise
+        except Exception as ex:         # the library (or its import) fails in a way no step expects
+            bad = {'step': -1, 'observed': repr(ex), 'sig': {'module': 'EnumLib', 'act': act, 'crash': type(ex).__name__}}
         if bad:
             out.append((line, b, bad))
     return out, acts, nontrivial, samples
@@ -618,7 +623,15 @@ def _rand_program(seed):
 
 
 def _rand_chunk(seeds):
-    return [_rand_program(sd) for sd in seeds]
+    out = []
+    for sd in seeds:
+        try:
+            out.append(_rand_program(sd))
+        except MachineryError:
+            raise
+        except Exception as ex:         # no event of the specification: rejected by Trace_EnumLib
+            out.append([{'ev': 'crash', 'reg': 0, 'out': _exc(ex), 'seed': sd, 'text': repr(ex)[:200]}])
+    return out
 
 
 # ------------------------------------------------------------------ class level: status enums along class hierarchies
@@ -722,7 +735,17 @@ def _status_replay(line):
 
 
 def _status_chunk(lines):
-    return [(line, bad) for line in lines for bad in [_status_replay(line)] if bad]
+    out = []
+    for line in lines:
+        try:
+            bad = _status_replay(line)
+        except MachineryError:
+            raise
+        except Exception as ex:
+            bad = {'sig': {'module': 'EnumStatus', 'what': 'crash', 'crash': type(ex).__name__}, 'observed': repr(ex)}
+        if bad:
+            out.append((line, bad))
+    return out
 
 
 GEN_QUICK = ['Gen_EnumLib_quick_build.cfg', 'Gen_EnumLib_quick_build2.cfg', 'Gen_EnumLib_quick_build3.cfg', 'Gen_EnumLib_quick_ops.cfg',
@@ -766,7 +789,7 @@ def run(chk):
         traces.extend(part)
     # binding self-test: recordings with one corrupted result ride along and must be rejected
     corrupted = [c for c in (_corrupt(tr) for tr in traces[:40]) if c][:5]
-    if not corrupted:
+    if not corrupted and not any(tr[0]['ev'] == 'crash' for tr in traces):
         raise MachineryError('no recorded program fit for the self-test')
     stage['programs'] = round(_t.time() - t0, 1)
 
